@@ -144,11 +144,90 @@ pub fn coltype(s: &S) -> ColumnType {
     }
 }
 
+
+/// sets the column type through the ColumnDef convenience method for it, where there is one with exactly
+/// this meaning; false = no such method (the caller falls back to new_with_type)
+fn typed_method(c: &mut ColumnDef, t: &S) -> bool {
+    match t {
+        S::A(x) => {
+            match x.as_str() {
+                "text" => c.text(),
+                "blob" => c.blob(),
+                "tinyint" => c.tiny_integer(),
+                "smallint" => c.small_integer(),
+                "int" => c.integer(),
+                "bigint" => c.big_integer(),
+                "utinyint" => c.tiny_unsigned(),
+                "usmallint" => c.small_unsigned(),
+                "uint" => c.unsigned(),
+                "ubigint" => c.big_unsigned(),
+                "float" => c.float(),
+                "double" => c.double(),
+                "datetime" => c.date_time(),
+                "timestamp" => c.timestamp(),
+                "timestamptz" => c.timestamp_with_time_zone(),
+                "time" => c.time(),
+                "date" => c.date(),
+                "year" => c.year(),
+                "boolean" => c.boolean(),
+                "json" => c.json(),
+                "jsonb" => c.json_binary(),
+                "uuid" => c.uuid(),
+                "cidr" => c.cidr(),
+                "inet" => c.inet(),
+                "macaddr" => c.mac_address(),
+                "ltree" => c.ltree(),
+                _ => return false,
+            };
+            true
+        }
+        S::L(_) => {
+            let l = t.args();
+            match (t.head(), l.len()) {
+                ("char", 0) => c.char(),
+                ("char", 1) => c.char_len(u(&l[0])),
+                ("string", 0) => c.string(),
+                ("string", 1) if l[0].atom() != "max" => c.string_len(u(&l[0])),
+                ("decimal", 0) => c.decimal(),
+                ("decimal", 2) => c.decimal_len(u(&l[0]), u(&l[1])),
+                ("money", 0) => c.money(),
+                ("money", 2) => c.money_len(u(&l[0]), u(&l[1])),
+                ("binary", 1) => c.binary_len(u(&l[0])),
+                ("varbinary", 1) if l[0].atom() != "max" => c.var_binary(u(&l[0])),
+                ("bit", 0) => c.bit(None),
+                ("bit", 1) => c.bit(Some(u(&l[0]))),
+                ("varbit", 1) => c.varbit(u(&l[0])),
+                #[cfg(feature = "fa")]
+                ("vector", 0) => c.vector(None),
+                #[cfg(feature = "fa")]
+                ("vector", 1) => c.vector(Some(u(&l[0]))),
+                ("custom", 1) => c.custom(id(&l[0])),
+                ("enum", _) => c.enumeration(id(&l[0]), l[1..].iter().map(id)),
+                ("interval", 2) => c.interval(
+                    if l[0].atom() == "-" { None } else { Some(INTERVALS[u(&l[0]) as usize].clone()) },
+                    if l[1].atom() == "-" { None } else { Some(u(&l[1])) },
+                ),
+                ("array", 1) => c.array(coltype(&l[0])),
+                _ => return false,
+            };
+            true
+        }
+    }
+}
+
 pub fn coldef(s: &S) -> ColumnDef {
     assert!(s.head() == "cd", "expected cd");
     let l = s.args();
     let mut c = match &l[1] {
         S::A(x) if x == "-" => ColumnDef::new(id(&l[0])),
+        // for part of the cases the type is set through the ColumnDef method documented for it
+        t if crate::exprs::shash(s) % 2 == 1 => {
+            let mut c = ColumnDef::new(id(&l[0]));
+            if !typed_method(&mut c, t) {
+                c = ColumnDef::new_with_type(id(&l[0]), coltype(t));
+            }
+            c
+        }
         t => ColumnDef::new_with_type(id(&l[0]), coltype(t)),
     };
     for sp in &l[2..] {
